@@ -92,7 +92,7 @@ class Runner(object):
         restarts = 0
         while todo:
             restarts += 1
-            if restarts > 30:
+            if restarts > 40:
                 for c in todo:
                     results[c.id] = {"crash": {"kind": "fault", "error": "not run (too many crashes before it)", "function": None},
                                      "stderr": ""}
@@ -774,6 +774,8 @@ def run_catalogue(ctx, runner):
     failures = {}
     for c in cases:
         r = results.get(c.id, {"crash": {"kind": "fault", "error": "no result", "function": None}, "stderr": ""})
+        if "crash" in r and str(r["crash"].get("error", "")).startswith("not run"):
+            continue
         probs = judge(c, r)
         rows.add((c.fam, c.func, c.cls))
         nontrivial = ("crash" not in r) and (has_failed(r) or r.get("d0") != r.get("d1"))
@@ -787,7 +789,13 @@ def run_catalogue(ctx, runner):
     ctx.extra["catalogue_rows"] = len(cases)
     ctx.extra["catalogue_distinct_function_class"] = len(rows)
     ctx.extra["catalogue_rows_per_family"] = classes
-    ctx.obligation("catalogue:contract", not failures, "; ".join("%s [%s]: %s" % k for k in sorted(failures)[:5]))
+    known = vplib.load_known()
+    unknown = [k for k in sorted(failures)
+               if vplib.match_known(ctx.prop, {"kind": "contract", "function": k[0], "problem": k[2]}, known) is None]
+    ctx.obligation("catalogue:contract", not unknown,
+                   "; ".join("%s [%s]: %s" % k for k in unknown[:5]) if unknown else
+                   ("only rows of known findings fail: " + "; ".join("%s [%s]" % (k[0], k[1]) for k in sorted(failures)[:6])
+                    if failures else ""))
     # one violation per (function, class, problem): shrink the state
     merged = {}
     for (func, cls, key), lst in sorted(failures.items()):
@@ -944,6 +952,8 @@ def model_tie(ctx, runner, drv, broken):
         m = ml.split()
         ctx.count(("tie", c.fam, c.func, tuple(c.args), tuple(sorted(c.state.items())), c.text) if m[0] != "pass" else None)
         if r is None or "crash" in r:
+            if r is not None and str(r["crash"].get("error", "")).startswith("not run"):
+                continue
             diffs.append((c, ml, "library crashed: %s" % (r or {}).get("crash")))
             continue
         failed = has_failed(r)
